@@ -1060,7 +1060,18 @@ func (ex *Exec) callBuiltin(caller *frame, fn *ssa.Builtin, args []Value) Value 
 			return smt.BVC(64, uint64(len(x)))
 		case *SymStr:
 			if x.Opaque {
-				ex.abort("len of opaque string: %s", x.Note)
+				if x.LenT == nil {
+					min := 0
+					for _, seg := range x.Segs {
+						if seg != nil {
+							min += strLen(seg)
+						}
+					}
+					ex.P.nChoice++
+					x.LenT = ex.P.newInput(fmt.Sprintf("len(opaque)#%d", ex.P.nChoice), smt.BV(64))
+					ex.P.assert(smt.And(smt.SLe(smt.BVC(64, uint64(min)), x.LenT), smt.SLt(x.LenT, smt.BVC(64, 1<<20))))
+				}
+				return x.LenT
 			}
 			return smt.BVC(64, uint64(len(x.B)))
 		case Array:
